@@ -80,6 +80,10 @@ type funcLocks struct {
 	acquiresOnRecv map[string]bool
 }
 
+// lockWrappers: summaries of small helper methods that only take or release a lock of their receiver
+// (s.lock() / s.unlock()): callee -> field -> effect ("Lock", "RLock", "Unlock").
+var lockWrappers = map[*ssa.Function]map[string]string{}
+
 func computeLocks(fn *ssa.Function, entry lockset) *funcLocks {
 	fl := &funcLocks{fn: fn, before: map[ssa.Instruction]lockset{}, acquiresOnRecv: map[string]bool{}}
 	if len(fn.Blocks) == 0 {
@@ -107,6 +111,26 @@ func computeLocks(fn *ssa.Function, entry lockset) *funcLocks {
 			}
 			base, field, op, ok := lockOp(core.CallOf(instr))
 			if !ok {
+				// a call to a lock / unlock wrapper of the same kind of object
+				if cl := core.CallOf(instr); cl != nil && cl.Static != nil && len(cl.Common.Args) > 0 {
+					if eff, isW := lockWrappers[cl.Static]; isW {
+						wb := core.Term(cl.Common.Args[0])
+						for f, e := range eff {
+							k := wb + "|" + f
+							switch e {
+							case "Lock":
+								cur[k] = heldLock{wb, f, true}
+							case "RLock":
+								cur[k] = heldLock{wb, f, false}
+							case "Unlock":
+								delete(cur, k)
+							}
+							if wb == "P0" && e != "Unlock" {
+								fl.acquiresOnRecv[f] = true
+							}
+						}
+					}
+				}
 				continue
 			}
 			k := base + "|" + field
@@ -373,8 +397,75 @@ func (c *Ctx) lockAnalysis() *lockAnalysis {
 	la := &lockAnalysis{c: c, monitors: c.monitors(), locks: map[*ssa.Function]*funcLocks{}}
 	mutMemo = map[*ssa.Function]int{}
 	modOnly = func(f *ssa.Function) bool { return f.Pkg != nil && c.P.IsModPkg(f.Pkg.Pkg) && !c.P.IsGenerated(f) }
-	for _, f := range c.P.ModFuncs() {
-		la.locks[f] = computeLocks(f, nil)
+	lockWrappers = map[*ssa.Function]map[string]string{}
+	for round := 0; round < 2; round++ {
+		for _, f := range c.P.ModFuncs() {
+			la.locks[f] = computeLocks(f, nil)
+		}
+		// derive wrapper summaries: every return holds a receiver lock that was not held at entry / an unlock that leaves nothing held
+		for _, f := range c.P.ModFuncs() {
+			if f.Parent() != nil || len(f.Params) == 0 || f.Signature.Recv() == nil {
+				continue
+			}
+			fl := la.locks[f]
+			eff := map[string]string{}
+			var rets []ssa.Instruction
+			unlocks := map[string]bool{}
+			hasDefer := false
+			for _, b := range f.Blocks {
+				for _, in := range b.Instrs {
+					if _, isD := in.(*ssa.Defer); isD {
+						hasDefer = true
+						continue
+					}
+					if r, ok := in.(*ssa.Return); ok {
+						rets = append(rets, r)
+					}
+					if bs, fd, op, ok := lockOp(core.CallOf(in)); ok && bs == "P0" && (op == "Unlock" || op == "RUnlock") {
+						unlocks[fd] = true
+					}
+				}
+			}
+			if len(rets) == 0 || hasDefer {
+				continue
+			}
+			first := fl.before[rets[0]]
+			for k, h := range first {
+				if h.base != "P0" {
+					continue
+				}
+				all := true
+				for _, r := range rets[1:] {
+					if h2, ok := fl.before[r][k]; !ok || h2.excl != h.excl {
+						all = false
+					}
+				}
+				if all {
+					if h.excl {
+						eff[h.field] = "Lock"
+					} else {
+						eff[h.field] = "RLock"
+					}
+				}
+			}
+			for fd := range unlocks {
+				held := false
+				for _, r := range rets {
+					if _, ok := fl.before[r]["P0|"+fd]; ok {
+						held = true
+					}
+				}
+				if !held {
+					eff[fd] = "Unlock"
+				}
+			}
+			if len(eff) > 0 {
+				lockWrappers[f] = eff
+			}
+		}
+		if len(lockWrappers) == 0 {
+			break
+		}
 	}
 	// collect accesses
 	for _, f := range c.P.ModFuncs() {
